@@ -115,7 +115,17 @@ META["C14"] = dict(
     design_ref="DESIGN.md section 4 / C14", note=_DBNOTE.replace(" Retention is excluded here (C14).", "") + " Real-time clocks and several tables sharing one clock are not modelled.",
     technique="Coq proof (clock/horizon invariants, truncate denotation, store refinement, translated flush constant) + retention-history differential on the real DB")
 
+META["C15"] = dict(
+    text=("Theorems (Props/C15.v): an alteration keeps, for every field that keeps its name and expression, the point from which it "
+          "aggregates (its history is untouched by permutations, insertions and deletions of other fields); a field with no "
+          "counterpart in the previous definition starts empty and sees exactly the points processed since; the new definition has "
+          "exactly the new fields in the new order; a new WHERE judges only points processed after the change; accepted points are "
+          "never lost; each column is stored across flushes exactly as if it were alone (store refinement). Correspondence: "
+          "insert/flush/reopen/ApplySchema histories on the real DB incl. re-adding dropped fields."),
+    design_ref="DESIGN.md section 4 / C15", note=_DBNOTE + " The three field layouts in play (file header, rowStore.fields, memstore.fields) are tied by correspondence only.",
+    technique="Coq proof (field identity bookkeeping, per-column store refinement) + alteration-history differential on the real DB")
+
 NOT_APPLICABLE = [
     {"property_id": p, "reason": _PENDING}
-    for p in ["C02", "C10", "C11", "C12", "C13", "C15", "C16", "C19", "C20"]
+    for p in ["C02", "C10", "C11", "C12", "C13", "C16", "C19", "C20"]
 ]
